@@ -24,6 +24,16 @@ Written(evs) == [x \in 1..Len(SelectSeq(evs, LAMBDA v : v.k = "w")) |-> SelectSe
 Count(seq, x) == Cardinality({j \in DOMAIN seq : seq[j] = x})
 SameBag(a, b) == \A x \in ToSet(a) \cup ToSet(b) : Count(a, x) = Count(b, x)
 
+\* C03: a destination that asks to be told the severity is told it immediately before each of its
+\* Writes: its own events are (SetLevel(r), Write)*; other destinations are never told
+OfWriter(evs, x) == SelectSeq(evs, LAMBDA v : v.w = x)
+NotifyOK(evs, r) ==
+    /\ \A x \in WantsLevel :
+          LET p == OfWriter(evs, x) IN
+          /\ Len(p) % 2 = 0
+          /\ \A j \in 1..Len(p) : IF j % 2 = 1 THEN p[j].k = "s" /\ p[j].r = r ELSE p[j].k = "w"
+    /\ \A j \in 1..Len(evs) : evs[j].k = "s" => evs[j].w \in WantsLevel
+
 ObsLoggerOK(s, l, o) ==
     /\ Has(o, "json") => o.json = s.cfg[l].json
     /\ Has(o, "color") => o.color = s.cfg[l].color
@@ -40,7 +50,8 @@ ObsLoggerOK(s, l, o) ==
             IN IF c = {} THEN o.sub[x].got = 0 ELSE o.sub[x].got \in c
     \* every selected destination receives the record once per occurrence in the list, nothing else
     \* receives anything (the order of Write calls across destinations is not part of the property)
-    /\ Has(o, "dest") => \A x \in 1..Len(o.dest) : SameBag(Written(o.dest[x].evs), Dest(s, l, o.dest[x].r))
+    /\ Has(o, "dest") => \A x \in 1..Len(o.dest) : /\ SameBag(Written(o.dest[x].evs), Dest(s, l, o.dest[x].r))
+                                                         /\ NotifyOK(o.dest[x].evs, o.dest[x].r)
     \* C01: per severity, every entry point decides as the admission rule says
     /\ Has(o, "gate") => \A x \in 1..Len(o.gate) :
             IF Emits(s, l, o.gate[x].r) THEN o.gate[x].no = <<>> ELSE o.gate[x].yes = <<>>
@@ -63,27 +74,34 @@ Expect(s, e) ==
                                                level |-> s2.cfg[l].level, skip |-> s2.cfg[l].skip,
                                                name |-> s2.name[l], parent |-> s2.parent[l],
                                                attrs |-> s2.cfg[l].attrs,
-                                               wn |-> s2.cfg[l].wn, we |-> s2.cfg[l].we]]])
+                                               wn |-> s2.cfg[l].wn, we |-> s2.cfg[l].we,
+                                               wl |-> SetToSeq({<<v, s2.cfg[l].wl[v]>> : v \in WLevels})]]])
 
-TInit == st = InitState /\ i = 1 /\ failed = FALSE /\ bad = {}
+(* Where the documentation is silent Step yields several successors, and an observation may not
+   tell them apart at once; the monitor therefore tracks the SET of model states that explain
+   everything observed so far (cands) - st is one representative, used by the invariants.       *)
+VARIABLE cands
+
+TInit == st = InitState /\ cands = {InitState} /\ i = 1 /\ failed = FALSE /\ bad = {}
 
 TNext ==
     /\ i <= Len(TLog)
     /\ i' = i + 1
     /\ LET e == TLog[i] IN
-       IF e.op = "Reset" THEN st' = InitState /\ failed' = FALSE /\ bad' = bad
-       ELSE IF failed THEN UNCHANGED <<st, failed, bad>>
-       ELSE LET ok == IF Guard(st, e) THEN {s2 \in Step(st, e) : ObsMatch(st, e, s2)} ELSE {}
+       IF e.op = "Reset" THEN st' = InitState /\ cands' = {InitState} /\ failed' = FALSE /\ bad' = bad
+       ELSE IF failed THEN UNCHANGED <<st, cands, failed, bad>>
+       ELSE LET ok == UNION {IF Guard(s, e) THEN {s2 \in Step(s, e) : ObsMatch(s, e, s2)} ELSE {} : s \in cands}
             IN IF ok # {}
-               THEN st' = (CHOOSE s2 \in ok : TRUE) /\ UNCHANGED <<failed, bad>>
-               ELSE st' = st /\ failed' = TRUE /\ bad' = bad \cup {[line |-> i, expected |-> Expect(st, e)]}
+               THEN cands' = ok /\ st' = (CHOOSE s2 \in ok : TRUE) /\ UNCHANGED <<failed, bad>>
+               ELSE /\ UNCHANGED <<st, cands>> /\ failed' = TRUE
+                    /\ bad' = bad \cup {[line |-> i, expected |-> Expect(st, e)]}
 
-TSpec == TInit /\ [][TNext]_<<st, i, failed, bad>>
+TSpec == TInit /\ [][TNext]_<<st, cands, i, failed, bad>>
 
 \* evaluated in every state; prints the verdict once the whole log is consumed
 Done == i <= Len(TLog) \/ PrintT("@@bad " \o ToJson(SetToSeq(bad))) \/ TRUE
 
 \* the model's own invariants are evaluated on every state the implementation visits
-TOneFormat == OneFormat
+TOneFormat == \A s \in cands : \A l \in Live(s) : ~(s.cfg[l].json /\ s.cfg[l].color)
 TTreeOK == TreeOK
 =============================================================================
